@@ -11,7 +11,7 @@ pub fn canon(v: &Value) -> String {
     let mut l: Vec<(String, String)> = vec![];
     if let Value::Object(m) = v {
         for (k, x) in m {
-            let known = k == "data" || k == "dataset" || k == "__p" || k == "nope"
+            let known = k == "data" || k == "dataset" || k == "__p" || k == "kk__8" || k == "nope"
                 || (k.len() >= 2 && k.starts_with('k') && k[1..].chars().all(|c| c.is_ascii_digit()));
             if known {
                 l.push((
